@@ -40,6 +40,7 @@ func (g *Gen) registerBase() {
 	g.add("update_batch_metadata", g.genUpdateBatchMetadata)
 	g.add("bridge", g.genBridge)
 	g.add("bridge_receive", g.genBridgeReceive)
+	g.add("bridge_receive_bound", g.genBridgeReceiveBound)
 	g.add("allowlist", g.genAllowlist)
 	g.add("class_creator", g.genClassCreator)
 	g.add("class_fee", g.genClassFee)
@@ -382,7 +383,21 @@ func (g *Gen) genMint() *eng.Tx {
 	if c != nil {
 		cid = c.Id
 	}
-	return tx(&basetypes.MsgMintBatchCredits{Issuer: issuer, BatchDenom: g.batchDenom(b), Issuance: g.issuance(1 + g.R.Intn(2)), OriginTx: g.originTx(cid, false)})
+	iss := g.issuance(1 + g.R.Intn(3))
+	// retired mints smaller than what the recipient already holds retired (the row is rewritten while
+	// its retired column is non-zero)
+	for _, i := range iss {
+		if g.chance(0.4) {
+			_, r, _ := g.V.BalOf(i.Recipient, b.Key)
+			if r.Sign() > 0 {
+				i.RetiredAmount = g.amountUpTo(new(big.Rat).Quo(r, big.NewRat(2, 1)))
+				if i.RetirementJurisdiction == "" {
+					i.RetirementJurisdiction = "US"
+				}
+			}
+		}
+	}
+	return tx(&basetypes.MsgMintBatchCredits{Issuer: issuer, BatchDenom: g.batchDenom(b), Issuance: iss, OriginTx: g.originTx(cid, false)})
 }
 
 func (g *Gen) genSeal() *eng.Tx {
@@ -843,4 +858,43 @@ func (g *Gen) boundaryStart() *time.Time {
 		return nil
 	}
 	return &t
+}
+
+// genBridgeReceiveBound: a further receipt for a contract that is already bound to a batch (sealed
+// batches preferred), signed by the batch issuer (or, hostile, by a class issuer who is not the batch
+// issuer), with a fresh origin transaction from an allowed chain.
+func (g *Gen) genBridgeReceiveBound() *eng.Tx {
+	if len(g.V.Contracts) == 0 {
+		return nil
+	}
+	bc := g.V.Contracts[g.R.Intn(len(g.V.Contracts))]
+	for i := 0; i < 6; i++ {
+		c := g.V.Contracts[g.R.Intn(len(g.V.Contracts))]
+		if b := g.V.Batches[c.BatchKey]; b != nil && !b.Open {
+			bc = c
+			break
+		}
+	}
+	b := g.V.Batches[bc.BatchKey]
+	cl := g.V.Classes[bc.ClassKey]
+	if b == nil || cl == nil {
+		return nil
+	}
+	issuer := obs.Addr(b.Issuer)
+	if g.hostile() {
+		issuer = g.classIssuer(cl)
+	}
+	src := "polygon"
+	ks := sortedKeys(g.V.BridgeChains)
+	if len(ks) > 0 {
+		src = ks[g.R.Intn(len(ks))]
+	}
+	s, e := g.date(), g.date()
+	if e.Before(s) {
+		s, e = e, s
+	}
+	return tx(&basetypes.MsgBridgeReceive{Issuer: issuer, ClassId: cl.Id,
+		Project:  &basetypes.MsgBridgeReceive_Project{ReferenceId: "BR-bound", Jurisdiction: "US", Metadata: "pm"},
+		Batch:    &basetypes.MsgBridgeReceive_Batch{Recipient: g.recipient(), Amount: g.issueAmount(), StartDate: &s, EndDate: &e, Metadata: "bm"},
+		OriginTx: &basetypes.OriginTx{Id: ethHash(5000 + g.R.Intn(100000)), Source: src, Contract: bc.Contract}})
 }
